@@ -18,7 +18,7 @@ TAGS = [[], ['Since: 1.2'], ['Deprecated: 1.4: Use bar() instead.', 'Stability: 
 
 
 def render(ident, pann, rann, tags, layout):
-    """layout: 'inline' | 'continued' | 'indented' | 'crlf'"""
+    """layout: 'inline' | 'continued' | 'indented' | 'crlf' | 'tabs' (annotation groups separated by a TAB)"""
     pre = '    ' if layout == 'indented' else ''
     lines = ['/**']
 
@@ -31,7 +31,7 @@ def render(ident, pann, rann, tags, layout):
                 out.append(' *   %s' % a)
             out[-1] = out[-1] + (': %s' % desc if desc else ':')
             return out
-        return [' * %s: %s: %s' % (head, ' '.join(anns), desc)]
+        return [' * %s: %s: %s' % (head, ('\t' if layout == 'tabs' else ' ').join(anns), desc)]
     lines += item('foo_bar', ident, '')
     lines += item('@p', pann, 'the parameter')
     lines += item('@n', [], 'a length')
@@ -92,7 +92,7 @@ def layouts_and_round_trip(tier, seed):
     bad = None
     for ident, pann, rann, tags in itertools.product(IDENT_ANNS, PARAM_ANNS, RET_ANNS, TAGS):
         ref = None
-        for layout in ('inline', 'continued', 'indented', 'crlf'):
+        for layout in ('inline', 'continued', 'indented', 'crlf', 'tabs'):
             text = render(ident, pann, rann, tags, layout)
             n += 1
             try:
@@ -118,8 +118,8 @@ def layouts_and_round_trip(tier, seed):
         if bad:
             break
     out = {'bounded': [{'what': 'parse_comment_block + GtkDocCommentBlockWriter: layout independence (inline / continued / indented / '
-                                'CR LF) and write/parse fixed point, on the real parser and writer',
-                        'bound': '%d contents x 4 layouts (exhaustive over the family in contracts/extra/c10_layouts.py)'
+                                'CR LF / TAB-separated groups) and write/parse fixed point, on the real parser and writer',
+                        'bound': '%d contents x 5 layouts (exhaustive over the family in contracts/extra/c10_layouts.py)'
                                  % (len(IDENT_ANNS) * len(PARAM_ANNS) * len(RET_ANNS) * len(TAGS)),
                         'instances': n, 'failed': 0 if bad is None else 1}]}
     if bad:
